@@ -301,8 +301,11 @@ def h_launch_angle(ex):
     the upper point; the first solution is flagged direct, and beta <= n(z_high), so it has
     no turning depth between its endpoints."""
     import pyrex.ray_tracing as rt
-    from pyrex.ice_model import AntarcticIce
-    ice = AntarcticIce()
+    from pyrex.ice_model import AntarcticIce, GreenlandIce
+    kind = ex.case.get('ice', 'antarctic')
+    # (a non-default profile: the module-level default ice must play no role)
+    ice = {'antarctic': AntarcticIce, 'greenland': GreenlandIce,
+           'custom': lambda: AntarcticIce(n0=1.62, k=0.31, a=0.021)}[kind]()
     zf, zt = ex.case['z_from'], ex.case['z_to']
     brackets = []
 
@@ -383,9 +386,16 @@ HARNESSES = [
                                 {'z0': -20.0, 'z1': -26.5, 'dz': 3.0}]}),
     Harness('launch-angle', h_launch_angle, _mods, encodes=_enc, twins=('no-flip',),
             cases={'quick': [{'z_from': -100.0, 'z_to': -400.0, '_twins': 1},
-                             {'z_from': -400.0, 'z_to': -100.0}],
+                             {'z_from': -400.0, 'z_to': -100.0},
+                             {'z_from': -100.0, 'z_to': -300.0, 'ice': 'greenland'},
+                             {'z_from': -60.0, 'z_to': -250.0, 'ice': 'custom'},
+                             {'z_from': -300.0, 'z_to': -100.0, 'ice': 'greenland'}],
                    'thorough': [{'z_from': -100.0, 'z_to': -400.0, '_twins': 1},
                                 {'z_from': -400.0, 'z_to': -100.0},
+                                {'z_from': -100.0, 'z_to': -300.0, 'ice': 'greenland'},
+                                {'z_from': -300.0, 'z_to': -100.0, 'ice': 'greenland'},
+                                {'z_from': -60.0, 'z_to': -250.0, 'ice': 'custom'},
+                                {'z_from': -250.0, 'z_to': -60.0, 'ice': 'custom'},
                                 {'z_from': -1500.0, 'z_to': -200.0},
                                 {'z_from': -30.0, 'z_to': -35.0}]}),
 ]
